@@ -1,44 +1,111 @@
-/* Contract for FuncDetail::init (property C06, classification part): every argument is assigned the location the target ABI prescribes. */
+/* Contracts for the calling-convention classification (property C06): init_call_conv produces the ABI's register/stack tables,
+ * init_func_detail - given those tables - puts every argument where the ABI puts it. Modular: the CallConv record is the
+ * interface between the two (predicate c_cc_is). x86-64 System V and Win64, AArch64 AAPCS64 and Apple. */
 #include "spec/abi.h"
-#ifdef HAVE_STRUCT_FuncDetail
+#ifdef HAVE_STRUCT_CallConv
+#ifndef VERIF_ABI
+#define VERIF_ABI 1
+#endif
 #ifndef VERIF_MAXARGS
 #define VERIF_MAXARGS 32
 #endif
 unsigned g_arg;                       /* ghost witness argument index */
+uint8_t g_types[32];                  /* ghost: the signature's argument types */
+uint8_t g_nargs, g_ret;
+#ifndef __cplusplus
 unsigned nondet_unsigned(void);
-#define VERIF_GHOST_INIT() (g_arg = nondet_unsigned())
+#endif
+#define VERIF_GHOST_INIT() (g_arg = nondet_unsigned(), __CPROVER_havoc_object(g_types), __CPROVER_havoc_object(&g_nargs), __CPROVER_havoc_object(&g_ret))
 #define FV_IS_REG 0x100u
 #define FV_IS_STACK 0x200u
 #define FV_IS_INDIRECT 0x400u
 
-/* ABI selected by (architecture, platform, call conv id) - the configurations this contract covers */
-static inline int c_abi_of(const struct FuncSignature* sig, const struct Environment* env) {
-  unsigned cc = sig->_call_conv_id;
-  _Bool win = env->_platform == 1 || env->_platform_abi == 1;
-  _Bool apple = env->_platform >= 10 && env->_platform <= 15;
-  if (env->_arch == 2) {                                   /* x86-64 */
+/* ---- the CallConv record of each ABI (register numbers: hardware encodings) ------------------------------------ */
+static inline _Bool c_order_is(const uint8_t* id, const uint8_t* want, unsigned n) {
+  for (unsigned i = 0; i < 16; i++) if (id[i] != (i < n ? want[i] : 0xFF)) return 0;
+  return 1;
+}
+static inline int c_cc_code(const struct CallConv* cc, int abi) {
+  static const uint8_t sysv_gp[6] = {7, 6, 2, 1, 8, 9}, win_gp[4] = {1, 2, 8, 9}, seq[8] = {0, 1, 2, 3, 4, 5, 6, 7};
+  const uint8_t* gp = cc->_passed_order._data[0].id; const uint8_t* vec = cc->_passed_order._data[1].id;
+  switch (abi) {
+    case SPEC_ABI_SYSV64:
+      if ((unsigned)cc->_arch != 2 || (unsigned)cc->_strategy != 0 || cc->_spill_zone_size != 0 || cc->_red_zone_size != 128 || cc->_natural_stack_alignment != 16) return 1;
+      if (!c_order_is(gp, sysv_gp, 6) || !c_order_is(vec, seq, 8)) return 2;
+      if (!((unsigned)cc->_flags & 4u)) return 3;                                                     /* floats travel in XMM */
+      if (cc->_preserved_regs._data[0] != 0xF038u || cc->_preserved_regs._data[1] != 0) return 4;    /* rbx rsp rbp r12-r15 */
+      return 0;
+    case SPEC_ABI_WIN64:
+      if ((unsigned)cc->_arch != 2 || (unsigned)cc->_strategy != 1 || cc->_spill_zone_size != 32 || cc->_red_zone_size != 0 || cc->_natural_stack_alignment != 16) return 1;
+      if (!c_order_is(gp, win_gp, 4) || !c_order_is(vec, seq, 4)) return 2;
+      if (((unsigned)cc->_flags & 6u) != 6u) return 3;                                                /* floats in XMM, vectors by reference */
+      if (cc->_preserved_regs._data[0] != 0xF0F8u || cc->_preserved_regs._data[1] != 0xFFC0u) return 4;  /* + rsi rdi, xmm6-15 */
+      return 0;
+    case SPEC_ABI_AAPCS64:
+    case SPEC_ABI_APPLE64:
+      if ((unsigned)cc->_arch != 6 || (unsigned)cc->_strategy != (abi == SPEC_ABI_APPLE64 ? 3u : 0u) || cc->_spill_zone_size != 0 || cc->_natural_stack_alignment != 16) return 1;
+      if (!c_order_is(gp, seq, 8) || !c_order_is(vec, seq, 8)) return 2;
+      if (cc->_preserved_regs._data[0] != 0x7FFC0000u || cc->_preserved_regs._data[1] != 0xFF00u) return 4;  /* x18-x30, v8-v15 */
+      return 0;
+    default: return 9;
+  }
+}
+/* CallConv as CallConv::reset() leaves it */
+static inline _Bool c_cc_reset_state(const struct CallConv* cc) {
+  const uint8_t* p = (const uint8_t*)cc;
+  for (unsigned i = 0; i < sizeof(struct CallConv); i++) {
+    _Bool in_order = i >= __builtin_offsetof(struct CallConv, _passed_order);
+    if (p[i] != (in_order ? 0xFF : 0)) return 0;
+  }
+  return 1;
+}
+#ifdef HAVE_STRUCT_Environment
+/* ABI selected by (architecture, platform, call conv id) - the configurations covered */
+static inline int c_abi_of(unsigned cc, const struct Environment* env) {
+  _Bool win = (unsigned)env->_platform == 1 || (unsigned)env->_platform_abi == 1;
+  if ((unsigned)env->_arch == 2) {
     if (cc == 32) return SPEC_ABI_SYSV64;
     if (cc == 33) return SPEC_ABI_WIN64;
     if (cc == 0 || cc == 1 || cc == 2 || cc == 4 || cc == 5 || cc == 6 || cc == 7) return win ? SPEC_ABI_WIN64 : SPEC_ABI_SYSV64;
     return 0;
   }
-  if (env->_arch == 6) {                                   /* AArch64: every standard id is treated as the platform C convention */
-    if (cc <= 7) return apple ? SPEC_ABI_APPLE64 : SPEC_ABI_AAPCS64;
-    return 0;
-  }
+  if ((unsigned)env->_arch == 6) { if (cc <= 7) return (unsigned)env->_platform_abi == 5 ? SPEC_ABI_APPLE64 : SPEC_ABI_AAPCS64; return 0; }
   return 0;
 }
-static inline _Bool c_sig_ok(const struct FuncSignature* sig, int abi) {
-  if (sig->_arg_count > VERIF_MAXARGS || sig->_va_index != 255) return 0;
-  if (!(sig->_ret == 0 || spec_type_class(sig->_ret) != SPEC_T_NONE)) return 0;
-  if ((abi == SPEC_ABI_AAPCS64 || abi == SPEC_ABI_APPLE64) && spec_type_size(sig->_ret) > 16) return 0;
-  for (unsigned i = 0; i < 32; i++) {
-    if (i >= sig->_arg_count) break;
-    unsigned t = sig->_args[i];
+#define CC_CONTRACT \
+  __CPROVER_requires(__CPROVER_is_fresh(cc, sizeof(*cc))) \
+  __CPROVER_requires(__CPROVER_is_fresh(environment, sizeof(*environment))) \
+  __CPROVER_requires(c_cc_reset_state(cc) && c_abi_of(call_conv_id, environment) == VERIF_ABI) \
+  __CPROVER_assigns(*cc) \
+  __CPROVER_ensures(__CPROVER_return_value == 0) \
+  __CPROVER_ensures(c_cc_code(cc, VERIF_ABI) == 0)
+#define CONTRACT_x86_FuncInternal_init_call_conv CC_CONTRACT
+#define CONTRACT_a64_FuncInternal_init_call_conv CC_CONTRACT
+#endif
+
+#ifdef HAVE_STRUCT_FuncDetail
+
+/* ---- argument classification ------------------------------------------------------------------------------------ */
+static inline _Bool c_types_ok(int abi) {
+  if (g_nargs > VERIF_MAXARGS) return 0;
+  if (!(g_ret == 0 || spec_type_class(g_ret) != SPEC_T_NONE)) return 0;
+  if ((abi == SPEC_ABI_AAPCS64 || abi == SPEC_ABI_APPLE64) && spec_type_size(g_ret) > 16) return 0;
+  for (unsigned i = 0; i < VERIF_MAXARGS; i++) {
+    if (i >= g_nargs) break;
+    unsigned t = g_types[i];
     if (spec_type_class(t) == SPEC_T_NONE) return 0;
     if ((abi == SPEC_ABI_AAPCS64 || abi == SPEC_ABI_APPLE64) && spec_type_size(t) > 16) return 0;   /* no 256/512-bit vectors on AArch64 */
     if ((abi == SPEC_ABI_SYSV64 || abi == SPEC_ABI_WIN64) && spec_type_class(t) == SPEC_T_VEC && spec_type_size(t) < 16) return 0;  /* 64-bit vectors = MMX: excluded */
   }
+  return 1;
+}
+/* FuncDetail as FuncDetail::init() hands it to the backend: calling convention initialised, argument/return types filled in */
+static inline _Bool c_detail_prepared(const struct FuncDetail* d, int abi) {
+  if (c_cc_code(&d->_call_conv, abi) != 0) return 0;
+  if (d->_arg_count != g_nargs || d->_va_index != 255 || d->_arg_stack_size != 0) return 0;
+  for (unsigned i = 0; i < VERIF_MAXARGS; i++) for (unsigned k = 0; k < 4; k++)
+    if (d->_args[i]._values[k]._data != ((i < g_nargs && k == 0) ? g_types[i] : 0u)) return 0;
+  for (unsigned k = 0; k < 4; k++) if (d->_rets._values[k]._data != (k == 0 ? g_ret : 0u) || d->_used_regs._data[k] != 0) return 0;
   return 1;
 }
 /* does the FuncValue `v` describe location `l`? returns 0 if yes, else a code */
@@ -55,8 +122,7 @@ static inline int c_loc_matches(uint32_t v, struct spec_loc l, unsigned type) {
     case SPEC_LOC_VEC:
       if (!is_reg || indirect || reg_id != l.reg) return 4;
       if (reg_type != (sz <= 4 ? 9u : sz == 8 ? 10u : sz == 16 ? 11u : sz == 32 ? 12u : 13u)) {
-        /* x86 passes scalar floats in XMM (Vec128) */
-        if (!(reg_type == 11u && sz <= 8)) return 5;
+        if (!(reg_type == 11u && sz <= 8)) return 5;                 /* x86 passes scalar floats in XMM (Vec128) */
       }
       return 0;
     case SPEC_LOC_STACK:
@@ -68,31 +134,26 @@ static inline int c_loc_matches(uint32_t v, struct spec_loc l, unsigned type) {
     default: return 9;
   }
 }
-static inline int c_arg_ok(const struct FuncDetail* self, const struct FuncSignature* sig, const struct Environment* env) {
-  int abi = c_abi_of(sig, env);
-  if (g_arg >= sig->_arg_count) return 0;
-  struct spec_args_result r = spec_arg_location(abi, sig->_args, sig->_arg_count, g_arg);
+static inline int c_arg_ok(const struct FuncDetail* self, int abi) {
+  if (g_arg >= g_nargs) return 0;
+  struct spec_args_result r = spec_arg_location(abi, g_types, g_nargs, g_arg);
   uint32_t v = self->_args[g_arg]._values[0]._data;
-  if ((v & 0xFF) != sig->_args[g_arg]) return 20;                    /* the value keeps its type */
+  if ((v & 0xFF) != g_types[g_arg]) return 20;                       /* the value keeps its type */
   if (self->_args[g_arg]._values[1]._data != 0) return 21;           /* 64-bit targets never split a value */
-  int c = c_loc_matches(v, r.loc, sig->_args[g_arg]);
+  int c = c_loc_matches(v, r.loc, g_types[g_arg]);
   return c ? c : (self->_arg_stack_size == r.stack_size ? 0 : 30);
 }
-#define CONTRACT_FuncDetail_init \
-  __CPROVER_requires(__CPROVER_is_fresh(self, sizeof(*self))) \
+#define FD_CONTRACT(EXTRA) \
+  __CPROVER_requires(__CPROVER_is_fresh(func, sizeof(*func))) \
   __CPROVER_requires(__CPROVER_is_fresh(signature, sizeof(*signature))) \
-  __CPROVER_requires(__CPROVER_is_fresh(environment, sizeof(*environment))) \
-  __CPROVER_requires(c_abi_of(signature, environment) != 0 && c_sig_ok(signature, c_abi_of(signature, environment))) \
-  __CPROVER_requires(c_fresh_detail(self)) \
-  __CPROVER_assigns(*self) \
+  __CPROVER_requires(c_types_ok(VERIF_ABI) && c_detail_prepared(func, VERIF_ABI) && (unsigned)signature->_va_index == 255) \
+  EXTRA \
+  __CPROVER_assigns(*func) \
   __CPROVER_ensures(__CPROVER_return_value == 0) \
-  __CPROVER_ensures(self->_arg_count == signature->_arg_count) \
+  __CPROVER_ensures(func->_arg_count == g_nargs) \
   /* D1 the witness argument sits exactly where the ABI puts it, and the stack area has the ABI's size */ \
-  __CPROVER_ensures(c_arg_ok(self, signature, environment) == 0)
-/* FuncDetail as constructed (FuncDetail() / reset(): all zero, va_index = none) */
-static inline _Bool c_fresh_detail(const struct FuncDetail* d) {
-  const uint8_t* p = (const uint8_t*)d;
-  for (unsigned i = 0; i < sizeof(struct FuncDetail); i++) if (p[i] != 0 && i != __builtin_offsetof(struct FuncDetail, _va_index)) return 0;
-  return 1;
-}
+  __CPROVER_ensures(c_arg_ok(func, VERIF_ABI) == 0)
+#define CONTRACT_x86_FuncInternal_init_func_detail FD_CONTRACT(__CPROVER_requires(register_size == 8))
+#define CONTRACT_a64_FuncInternal_init_func_detail FD_CONTRACT()
+#endif
 #endif
